@@ -19,7 +19,8 @@ import (
 )
 
 type caseRec struct {
-	Exp bool `json:"exp"`
+	Exp  bool   `json:"exp"`
+	Form string `json:"form"`
 }
 
 type genRec struct {
@@ -98,7 +99,13 @@ func run(casesPath, obsPath string) {
 			evalopts.EnvVariable("ints", system.Collection{system.Integer(1), system.Integer(2), system.Integer(3)}),
 			evalopts.EnvVariable("none", system.Collection{}),
 		}
-		out := lib.EvalOutcome(forest, g.Text, lib.AsResources(mr1), copts, eopts)
+		var out lib.Outcome
+		if c.Form == "var" {
+			// compile once; evaluate with %none bound to a value, then with %none empty: the second outcome is judged
+			out = twoBindings(forest, g.Text, lib.AsResources(mr1), copts)
+		} else {
+			out = lib.EvalOutcome(forest, g.Text, lib.AsResources(mr1), copts, eopts)
+		}
 		if err := w.Write(map[string]any{"id": g.ID, "cs": g.Cs, "src": g.Text, "out": out}); err != nil {
 			lib.Fatal("%v", err)
 		}
@@ -106,4 +113,32 @@ func run(casesPath, obsPath string) {
 	if err := w.Close(); err != nil {
 		lib.Fatal("%v", err)
 	}
+}
+
+func twoBindings(f *lib.Forest, src string, res []lib.Resource, copts []fhirpath.CompileOption) lib.Outcome {
+	var out lib.Outcome
+	ints := system.Collection{system.Integer(1), system.Integer(2), system.Integer(3)}
+	rep := lib.SafeRetry(func() {
+		e, err := fhirpath.Compile(src, copts...)
+		if err != nil {
+			out = lib.ErrOutcome("cerr", err)
+			return
+		}
+		for _, first := range []any{system.Integer(41), system.String("abc")} {
+			_, _ = e.Evaluate(res, evalopts.EnvVariable("ints", ints), evalopts.EnvVariable("none", first))
+		}
+		c, err := e.Evaluate(res, evalopts.EnvVariable("ints", ints), evalopts.EnvVariable("none", system.Collection{}))
+		if err != nil {
+			out = lib.ErrOutcome("err", err)
+			return
+		}
+		out = lib.OkOutcome(f.ProjectCollection(c))
+	})
+	if rep.Timeout {
+		return lib.TimeoutOutcome()
+	}
+	if rep.Panic != "" {
+		return lib.PanicOutcome(rep)
+	}
+	return out
 }
